@@ -9,6 +9,7 @@ package main
 // "wire" cases: a real in-process casket site (`proxy / http://127.0.0.1:port`) in front of a real
 // loopback backend, raw HTTP/1.1 on the client socket (Content-Length or chunked request bodies
 // around the 32 KiB copy buffer, chunked/flushed responses, trailers).
+// "relay" cases: see c04_relay.go; "conc" cases: see c04_conc.go.
 // "key", "sjs", "replace", "match": the helper functions the model builds on.
 
 import (
@@ -44,7 +45,7 @@ type c04Dir struct {
 }
 
 type c04In struct {
-	Kind string `json:"kind"` // key sjs replace match proxy wire
+	Kind string `json:"kind"` // key sjs replace match proxy wire relay conc
 	S    string `json:"s,omitempty"`
 	A    string `json:"a,omitempty"`
 	B    string `json:"b,omitempty"`
@@ -72,6 +73,9 @@ type c04In struct {
 	RCL       bool        `json:"rcl,omitempty"`      // wire: backend sets Content-Length
 	RAnn      []string    `json:"rann,omitempty"`
 	RTrailers [][2]string `json:"rtrailers,omitempty"`
+
+	Conc  *c04Conc  `json:"conc,omitempty"`  // kind conc: see c04_conc.go
+	Relay *c04Relay `json:"relay,omitempty"` // kind relay: see c04_relay.go
 
 	Fails         int  `json:"fails,omitempty"`
 	FailAfterRead bool `json:"fail_after_read,omitempty"`
@@ -403,6 +407,9 @@ func c04RunProxy(in *c04In) Result {
 	req, err := c04ParseRequest(in)
 	if err != nil {
 		return Result{Term: c04Trivial, Obs: "request rejected by net/http: " + err.Error(), Class: "proxy:request-rejected", Sig: "proxy:request-rejected"}
+	}
+	if c04WebsocketCase(in, req.Header) {
+		return Result{Term: c04Trivial, Obs: "websocket upgrade through the websocket preset: outside the model", Class: "proxy:websocket-out-of-scope", Sig: "proxy:websocket-out-of-scope"}
 	}
 	qterm := c04RequestTerm(req)
 	hadHop := false
@@ -843,9 +850,19 @@ func c04RunWire1(in *c04In) (Result, bool) {
 	if rerr != nil {
 		direct = "client could not read the relayed body: " + rerr.Error()
 	}
+	bh := c04Lines(in.RHdr)
+	if in.RCL {
+		bh["Content-Length"] = []string{fmt.Sprint(in.RBodyLen)} // what the backend sets itself
+	}
+	cchunked := false
+	for _, te := range resp.TransferEncoding {
+		if te == "chunked" {
+			cchunked = true
+		}
+	}
 	term := cApp("CWire", c04S(in.Method), cN(uint64(len(body))), cBool(in.Chunked), c04S(s.Method), cN(uint64(len(s.Body))), c04FirstDiff(body, s.Body),
-		cZ(s.CL), c04Bresp(in.RStatus, c04Lines(in.RHdr), in.RAnn, c04Lines(in.RTrailers)), cN(uint64(len(rb))), cN(uint64(resp.StatusCode)),
-		cN(uint64(len(got))), c04FirstDiff(rb, got), c04Hdr(resp.Header), c04Hdr(resp.Trailer))
+		cZ(s.CL), c04Bresp(in.RStatus, bh, in.RAnn, c04Lines(in.RTrailers)), cN(uint64(len(rb))), cN(uint64(resp.StatusCode)),
+		cN(uint64(len(got))), c04FirstDiff(rb, got), c04Hdr(resp.Header), c04Hdr(resp.Trailer), cBool(cchunked))
 	obs := map[string]interface{}{"up_len": len(s.Body), "up_cl": s.CL, "up_chunked": s.Chunked, "status": resp.StatusCode, "len": len(got), "header": resp.Header, "trailer": resp.Trailer}
 	class := "wire:cl"
 	if in.Chunked {
@@ -899,6 +916,10 @@ func c04Run(in0 interface{}) Result {
 		return c04RunProxy(in)
 	case "wire":
 		return c04RunWire(in)
+	case "conc":
+		return c04RunConc(in)
+	case "relay":
+		return c04RunRelay(in)
 	}
 	panic("bad kind " + in.Kind)
 }
@@ -1004,6 +1025,25 @@ var c04TargetPool = []string{"http://h%d.test", "http://h%d.test/", "http://h%d.
 var c04ReqTargets = []string{"/", "/x", "/api", "/api/x", "/apix", "/api/x%2Fy", "/a%20b", "/x/", "//double", "/api//x", "/a/b/c", "/API/x", "/x%2Fy/z", "/api/", "/x/api/y", "/b/a/c", "/api/api/x", "/v%2F1/api/x"}
 var c04Queries = []string{"", "", "a=b", "a=b&c=d", "q=%20x", "", "a=b?c"}
 
+// c04WebsocketCase: the `websocket` preset copies the client's Connection and Upgrade headers to the
+// upstream request; when those ask for a websocket upgrade ReverseProxy.ServeHTTP takes the
+// connection-hijacking path (needs a real *http.Transport and a hijackable client connection), which
+// is outside the model and the scripted transport.
+func c04WebsocketCase(in *c04In, reqHdr http.Header) bool {
+	if !c04HasDir(in.Dirs, func(d c04Dir) bool { return d.K == "websocket" }) {
+		return false
+	}
+	if !strings.EqualFold(reqHdr.Get("Upgrade"), "websocket") {
+		return false
+	}
+	for _, v := range reqHdr["Connection"] {
+		if strings.Contains(strings.ToLower(v), "upgrade") {
+			return true
+		}
+	}
+	return false
+}
+
 // c04GenProxy draws cases until at most one known-deviation trigger is present, so that every
 // failing class stays attributable to exactly one signature.
 func c04GenProxy(r *Rand) *c04In {
@@ -1012,6 +1052,9 @@ func c04GenProxy(r *Rand) *c04In {
 		req, err := c04ParseRequest(in)
 		if err != nil {
 			return in
+		}
+		if c04WebsocketCase(in, req.Header) {
+			continue // websocket tunnelling (hijacked connections) is outside the model
 		}
 		if len(c04Triggers(in, req.Header)) <= 1 {
 			return in
@@ -1172,9 +1215,9 @@ func c04PickInt(r *Rand, xs []int) int { return xs[r.Intn(len(xs))] }
 
 func c04Gen(r *Rand, tier string) []interface{} {
 	var out []interface{}
-	nProxy, nWire, nKey, nRepl, nMatch := 2600, 90, 250, 150, 200
+	nProxy, nWire, nKey, nRepl, nMatch, nConc, nRelay := 2600, 90, 250, 150, 200, 40, 60
 	if tier == "thorough" {
-		nProxy, nWire, nKey, nRepl, nMatch = 26000, 900, 2500, 1500, 2000
+		nProxy, nWire, nKey, nRepl, nMatch, nConc, nRelay = 26000, 900, 2500, 1500, 2000, 400, 600
 	}
 	// helper functions: exhaustive small enumerations + random
 	for _, a := range []string{"", "/", "a", "/a", "a/", "/a/", "//", "/a//"} {
@@ -1212,9 +1255,24 @@ func c04Gen(r *Rand, tier string) []interface{} {
 		}
 		out = append(out, in)
 	}
+	// the heavier cases (whole bodies inside Coq, child processes) are spread evenly over the proxy
+	// cases, so that they land in different Coq shards
+	var heavy []interface{}
+	for i := 0; i < nRelay; i++ {
+		heavy = append(heavy, c04GenRelay(r, i))
+	}
+	for i := 0; i < nConc; i++ {
+		heavy = append(heavy, c04GenConc(r, i))
+	}
+	every := nProxy / (len(heavy) + 1)
 	for i := 0; i < nProxy; i++ {
 		out = append(out, c04GenProxy(r))
+		if every > 0 && i%every == every-1 && len(heavy) > 0 {
+			out = append(out, heavy[0])
+			heavy = heavy[1:]
+		}
 	}
+	out = append(out, heavy...)
 	var wires []*c04In
 	for i := 0; i < nWire; i++ {
 		wires = append(wires, c04GenWire(r, i))
@@ -1231,7 +1289,7 @@ func init() {
 	c04BuildVoc()
 	register(&Property{
 		ID: "C04", Imports: "V.Lib V.Gen_C04 V.C04_Model", Judge: "judge",
-		Rule: "cases = real proxy directive parser + Proxy.ServeHTTP with a scripted recording transport (every attempt of the retry loop) and a recorder client; real casket site + loopback backend with raw HTTP/1.1 for body framing/trailers; helper functions (CanonicalMIMEHeaderKey, singleJoiningSlash, Replacer, Proxy.match). non-trivial = proxied request carrying header lines and (directives or hop-by-hop headers), wire case with a body, helper case whose output differs from its input; distinct = distinct Coq case term",
+		Rule: "cases = real proxy directive parser + Proxy.ServeHTTP with a scripted recording transport (every attempt of the retry loop) and a recorder client; relay: scripted backend body reader segmentations through the real copyResponse/pooledIoCopy into a recording ResponseWriter (every WriteHeader/Write/Flush call, trailers keys); conc: N parallel requests with unique body patterns through one proxy with 2-3 hosts and try_duration > 0 in a child process (GOMAXPROCS/GC pinned), first attempts failing after the body was read while other responses are relayed through the pooled buffers (barrier transport or real http.Transport + loopback backends that accept, read, drop); real casket site + loopback backend with raw HTTP/1.1 for body framing/trailers; helper functions (CanonicalMIMEHeaderKey, singleJoiningSlash, Replacer, Proxy.match). non-trivial = proxied request carrying header lines and (directives or hop-by-hop headers), wire/relay case with a body, conc case with a non-empty retried body and at least one relayed response, helper case whose output differs from its input; distinct = distinct Coq case term",
 		Gen: c04Gen,
 		Decode: func(raw json.RawMessage) (interface{}, error) {
 			in := &c04In{}
